@@ -165,7 +165,7 @@ func (l *DList[T]) Delete(node *DoubleNode[T]) error {
 	}
 
 	// Check if the node to be deleted is the head node.
-	if head.Value == node.Value {
+	if node == head {
 		l.DoubleNode = *head.next
 		l.relinkHead()
 		return nil
